@@ -72,8 +72,11 @@ var xlDomWhitelist = []xlFunc{
 	{Pkg: "dom", Name: "coalesce", Lean: "coalesce"},
 	{Pkg: "dom", Name: "firstValidListItem", Lean: "firstValidListItem"},
 	{Pkg: "dom", Name: "mergeListsAppend", Lean: "mergeListsAppend", Fuel: []string{"$1.Size()+1", "$2.Size()+1"}},
-	{Pkg: "dom", Recv: "merger", Name: "mergeContainers", Lean: "mergeContainers", Flatten: true, RecFuel: "GoDom.sizeC $2 + 1"},
+	{Pkg: "dom", Recv: "merger", Name: "mergeContainers", Lean: "mergeContainers", Flatten: true, Nullable: []string{"c2"}, RecFuel: "GoDom.sizeC ($2.getD []) + 1"},
 	{Pkg: "dom", Recv: "merger", Name: "mergeListsMeld", Lean: "mergeListsMeld", Flatten: true, Fuel: []string{"$1.Size()+$2.Size()+1", "$1.Size()+$2.Size()+1", "$1.Size()+$2.Size()+1"}},
+	// dom/merge.go: what Merged() runs  [C06]
+	{Pkg: "dom", Recv: "merger", Name: "mergeLists", Lean: "mergeLists", Flatten: true},
+	{Pkg: "dom", Recv: "merger", Name: "mergeOverlay", Lean: "mergeOverlay", Flatten: true},
 	// dom/leaf.go, dom/list.go, dom/container.go: Equals / Clone with the dynamic dispatch of the interface calls  [C05]
 	{Pkg: "dom", Recv: "leaf", Name: "Equals", Lean: "leafEquals", Nullable: []string{"node"}},
 	{Pkg: "dom", Recv: "listImpl", Name: "Equals", Lean: "listEquals", Nullable: []string{"node"}, Fuel: []string{"len($0.items)+1"}, RecFuel: "2 * GoDom.sizeL $0 + 2", RecGroup: "equals"},
@@ -539,6 +542,26 @@ func (x *xl) domField(y *ast.SelectorExpr) ([]string, string, bool, error) {
 			return b, "(GoDom.items " + r + ")", true, nil
 		}
 		return b, "(GoDom.children " + r + ")", true, nil
+	}
+	isRecv := false
+	if id, ok := y.X.(*ast.Ident); ok && x.f.Flatten && x.p.info.Uses[id] == x.recv {
+		isRecv = true
+	}
+	if pt, ok := x.typeOf(y.X).Underlying().(*types.Pointer); ok && k == "" && !isRecv {
+		// p.f on a parameter / variable that is a pointer to a struct: dereference (nil panics), then the field
+		if _, isStruct := pt.Elem().Underlying().(*types.Struct); isStruct {
+			if sel, ok := x.p.info.Selections[y]; ok && sel.Kind() == types.FieldVal && len(sel.Index()) == 1 {
+				if _, err := x.w.leanType(pt.Elem()); err != nil {
+					return nil, "", true, x.errf(y, "%v", err)
+				}
+				b, s, err := x.expr(y.X)
+				if err != nil {
+					return nil, "", true, err
+				}
+				b, t := x.bindTmp(b, "Go.deref "+s)
+				return b, t + "." + leanField(y.Sel.Name), true, nil
+			}
+		}
 	}
 	if k == "leaf" && y.Sel.Name == "value" {
 		b, r, err := x.domRecv(y.X)
@@ -1664,4 +1687,41 @@ func (x *xl) checkAliases() error {
 		}
 	}
 	return nil
+}
+
+// declThenAssign: s is `var v T` (one name, no value, a DOM kind) and the next statement is `v = e` with an e that
+// cannot be nil and does not mention v
+func (x *xl) declThenAssign(s ast.Stmt, rest []ast.Stmt) bool {
+	ds, ok := s.(*ast.DeclStmt)
+	if !ok || len(rest) == 0 {
+		return false
+	}
+	gd, ok := ds.Decl.(*ast.GenDecl)
+	if !ok || gd.Tok != token.VAR || len(gd.Specs) != 1 {
+		return false
+	}
+	vs, ok := gd.Specs[0].(*ast.ValueSpec)
+	if !ok || len(vs.Names) != 1 || len(vs.Values) != 0 {
+		return false
+	}
+	o := x.p.info.Defs[vs.Names[0]]
+	if o == nil || domKind(o.Type()) == "" || domKind(o.Type()) == "any" || domKind(o.Type()) == "plain" {
+		return false
+	}
+	as, ok := rest[0].(*ast.AssignStmt)
+	if !ok || as.Tok != token.ASSIGN || len(as.Lhs) != 1 || len(as.Rhs) != 1 {
+		return false
+	}
+	id, ok := as.Lhs[0].(*ast.Ident)
+	if !ok || x.p.info.Uses[id] != o || x.nullable(as.Rhs[0]) || isNilIdent(x.p.info, as.Rhs[0]) {
+		return false
+	}
+	mentions := false
+	ast.Inspect(as.Rhs[0], func(n ast.Node) bool {
+		if i2, ok := n.(*ast.Ident); ok && x.p.info.Uses[i2] == o {
+			mentions = true
+		}
+		return true
+	})
+	return !mentions
 }
